@@ -2,7 +2,9 @@ package props
 
 import (
 	"context"
+	"errors"
 	"fmt"
+	netty "github.com/go-netty/go-netty"
 	"runtime"
 	"sync"
 	"time"
@@ -31,6 +33,23 @@ func init() {
 }
 
 func runC02(c *core.Ctx) {
+	fi := 0
+	for rep := 0; rep < c.Scale(2, 20); rep++ {
+		for _, q := range []int{2, 4, 8, 16, 64} {
+			for _, op := range []string{mon.OpWritev, mon.OpFlush} {
+				for ek := 0; ek < 3; ek++ {
+					fi++
+					if !c.Mine(fi) {
+						continue
+					}
+					id := fmt.Sprintf("sender-fault/q%d/%s/e%d/r%d", q, op, ek, rep)
+					if c.CaseQuiet(id) {
+						c02Fault(c, id, q, op, ek)
+					}
+				}
+			}
+		}
+	}
 	plans := wl.WindowPlans(20 * time.Millisecond)
 	total := c.Scale(6000, 100000)
 	stuck := 0
@@ -88,6 +107,74 @@ func runC02(c *core.Ctx) {
 				}
 			}
 		}
+	}
+}
+
+// swallowExc is an application exception handler that only records: the channel stays open unless the library closes it.
+type swallowExc struct {
+	mu   sync.Mutex
+	seen []error
+}
+
+func (s *swallowExc) HandleException(ctx netty.ExceptionContext, ex netty.Exception) {
+	s.mu.Lock()
+	s.seen = append(s.seen, ex)
+	s.mu.Unlock()
+}
+
+// c02Fault: one transport call of the background sender fails (timeout / non-timeout net.Error / plain error) while more
+// accepted payloads wait behind the failing batch, and the application's exception handler does not close the channel.
+// Whatever the library does about the failure: if the channel is still open at quiescence, nothing accepted may be left
+// parked in the queue (payloads of the failed batch were handed to the transport and count as handed).
+func c02Fault(c *core.Ctx, id string, q int, op string, ek int) {
+	var ferr error
+	switch ek {
+	case 0:
+		ferr = tmoErr{true}
+	case 1:
+		ferr = tmoErr{false}
+	default:
+		ferr = errors.New("c02 plain transport failure")
+	}
+	plan := []mon.Step{{At: "x1", Occ: 1, Kind: mon.Gate, Until: "go", UntilCount: 1, Timeout: 3 * time.Second}}
+	sw := &swallowExc{}
+	rig := mon.NewRig(mon.RigOpts{Mode: mon.NonBlock, Queue: q, Plan: plan, Handlers: []netty.Handler{sw}})
+	defer rig.Dispose()
+	rig.T.AddFault(mon.Fault{Kind: op, K: 1, Err: ferr})
+	n := 0
+	for k := 0; k < q; k++ {
+		if _, err := rig.Ch.Write1(mon.Payload(1, k, 48)); err == nil {
+			n++
+		}
+	}
+	rig.S.Mark("go")
+	if !rig.Ex.WaitOutstanding(1, 8*time.Second) && !rig.Ex.WaitOutstanding(0, time.Second) {
+		c.Inconclusive(id, "watchdog after the injected sender fault")
+		return
+	}
+	// settle: a closing channel finishes asynchronously
+	rig.Ex.WaitOutstanding(0, 300*time.Millisecond)
+	c.Count("sender_fault_trials", 1)
+	c.Sig("sender-fault", q, op, ek)
+	if !rig.Ch.IsActive() {
+		c.Count("sender_fault_closed_channel", 1)
+		return
+	}
+	c.Count("sender_fault_channel_stayed_open", 1)
+	ops, _ := rig.T.Snapshot()
+	handed := map[int]bool{}
+	for _, o := range ops {
+		if o.Kind != mon.OpWrite && o.Kind != mon.OpWritev {
+			continue
+		}
+		recs, _ := mon.ParseWire(o.Data)
+		for _, r := range recs {
+			handed[r.Seq] = true
+		}
+	}
+	if len(handed) < n {
+		c.Violation("C02:accepted-payload-stranded-after-sender-fault", id, fmt.Sprintf("queue size %d: the sender's %s #1 failed with %v, the application consumed the exception and the channel is still open; all %d write calls had returned success, no sender action is outstanding, and only %d payloads were ever handed to the transport: the rest is parked in the queue until some later write; ops=%s",
+			q, map[string]string{mon.OpWritev: "Writev", mon.OpFlush: "Flush"}[op], ferr, n, len(handed), mon.OpString(ops)), map[string]interface{}{"marks": rig.S.LogString(60)})
 	}
 }
 
